@@ -317,6 +317,7 @@ type vRedis struct {
 	faultArg map[int]int
 	down     bool
 	nextLock int
+	hookPause bool // operations are neither logged nor faulted (drivers: steps outside the flow under test)
 	hook     func(kind, key string) // called before the operation, outside mu
 	ctxHook  func(ctx context.Context, kind, key string) // scheduler hook (C12)
 }
@@ -338,6 +339,9 @@ func (r *vRedis) begin(ctx context.Context, kind, key string) (int, vFault) {
 	}
 	r.mu.Lock()
 	defer r.mu.Unlock()
+	if r.hookPause {
+		return -1, vNoFault
+	}
 	idx := len(r.ops)
 	f := r.faults[idx]
 	if r.down {
@@ -356,7 +360,7 @@ func (r *vRedis) Get(ctx context.Context, key string) ([]byte, error) {
 	}
 	e, ok := r.data[key]
 	if !ok || f == vMissing {
-		if !ok {
+		if !ok && idx >= 0 {
 			r.ops[idx].Err = true
 		}
 		return nil, errVRedisNil
